@@ -37,6 +37,12 @@ type Connection struct {
 	// Mutex for protecting rooms
 	roomsMu sync.RWMutex
 
+	// memberMu makes each change of membership one step: the room's table and
+	// the rooms map above change together, and a connection that has been torn
+	// down (gone) joins nothing any more. Held across the room-side call.
+	memberMu sync.Mutex
+	gone     bool
+
 	// Path parameters extracted from the WebSocket route pattern (e.g., :room from /chat/:room)
 	PathParams map[string]string
 
@@ -348,6 +354,16 @@ func (c *Connection) GetData(key string) (interface{}, bool) {
 
 // JoinRoom adds this connection to a room
 func (c *Connection) JoinRoom(roomName string) {
+	c.memberMu.Lock()
+	defer c.memberMu.Unlock()
+
+	// A join can be handled after the connection was unregistered (both are
+	// queued for the hub loop): a closed connection must not enter a room.
+	if c.gone {
+		log.Printf("[WS] Connection %s is closed, not joining room %s", c.ID, roomName)
+		return
+	}
+
 	// Add to room manager synchronously to ensure the room exists
 	// before any subsequent operations (like broadcast_to_room)
 	rm := c.hub.GetRoomManager()
@@ -366,6 +382,9 @@ func (c *Connection) JoinRoom(roomName string) {
 
 // LeaveRoom removes this connection from a room
 func (c *Connection) LeaveRoom(roomName string) {
+	c.memberMu.Lock()
+	defer c.memberMu.Unlock()
+
 	c.roomsMu.Lock()
 	delete(c.rooms, roomName)
 	c.roomsMu.Unlock()
@@ -374,6 +393,17 @@ func (c *Connection) LeaveRoom(roomName string) {
 	rm := c.hub.GetRoomManager()
 	rm.RemoveConnectionFromRoom(c, roomName)
 	log.Printf("[WS] Connection %s left room %s", c.ID, roomName)
+}
+
+// leaveAllRooms takes the connection out of every room for good, when the hub
+// tears it down. Its own list of rooms is kept: it is what a reconnecting
+// client is put back into.
+func (c *Connection) leaveAllRooms() {
+	c.memberMu.Lock()
+	defer c.memberMu.Unlock()
+
+	c.gone = true
+	c.hub.GetRoomManager().RemoveConnectionFromAllRooms(c)
 }
 
 // GetRooms returns all rooms this connection has joined
